@@ -37,6 +37,21 @@ CHECKS = {
             "of a Process event's outcome between trigger and processing is checked by the monitor, not proved (it is false under a "
             "manual succeed() on a live process); condition values are C05's subject.",
             "DESIGN.md section 4 C02, section 8"),
+    "C03": ("26 theorems (Props/C03.v) about run/run_prelude/run_loop/step of Kernel/Model.v for all program tables: run(until=number) and "
+            "run(until=event) specifications from every calm state (calm — incl. 'no stale stop callback' — is an invariant "
+            "re-established by every run(until) that returns), t <= now refused with ValueError and no change, the stop is raised after "
+            "ALL callbacks of the until-event, the AssertionError inside run() is unreachable; split transparency: for ALL programs the "
+            "split run with stop callbacks erased IS the free run with inert sentinels inserted (exactly the uninterrupted run for plans "
+            "of run(), run(until=event), step(n)); for parametric programs (event ids opaque, no peek; every peek-free script) and ALL stop "
+            "points incl. numeric horizons at due instants the user-visible trace equals that of run() up to an increasing renaming of "
+            "event ids; the as-found kernel is refuted. 600 (quick) / 5000 (thorough) bundles (uninterrupted + 3 split plans) compared "
+            "trace by trace; fresh-interpreter reruns under 2 / 16 PYTHONHASHSEED values.",
+            "Reproducibility across interpreter processes and hash seeds is CHECKED (fresh interpreters, 2 seeds x 40 bundles quick, 16 x "
+            "200 thorough), not proved (in Coq run is a function). The full split_transparent needs parametric programs (in the model an "
+            "event is a number an arbitrary automaton could branch on; a numeric horizon shifts later ids); for arbitrary automata the "
+            "_partial and _events_steps theorems are what is proved. env.peek() inside a process during run(until=number) sees the "
+            "sentinel (excluded). Repair: bd0bcc6.",
+            "DESIGN.md section 4 C03, section 8"),
     "C04": ("34 theorems (Props/C04.v) about call_interrupt/do_interruption/resume_loop/run_callbacks/step of Kernel/Model.v, for all code "
             "tables and all states reachable by module-level code, run() preludes and clean steps: interrupt on a dead process "
             "(generator ended, termination event processed or not) or on oneself returns RuntimeError and changes nothing, for ever "
@@ -98,7 +113,7 @@ CHECKS = {
             "360 (quick) / 9000 (thorough) executions per run, incl. two instances in one Environment.",
             "Full. 'Eventually transmitted' is carried by work conservation + drained + admissibility, not by a separate liveness "
             "theorem. Repairs: 97deeee (Monitor), b2bc02b (DRR class map), d0d3d61 (WFQ class count), 0e96376 (SP), and the SP class map "
-            "(see known_findings.json).",
+            "a131332 (SP files packets by class).",
             "DESIGN.md section 4 C12, section 8"),
     "C14": ("17 theorems (Props/C14.v): WFQ stamp recurrence incl. the first packet of a busy period; virtual-time growth, active set, reset "
             "on empty; VirtualClock stamp; every transmission start takes the strictly least (stamp, arrival instant, arrival counter) "
